@@ -16,5 +16,21 @@ theorem order_Program_recoverFromPanic : Tea.Gen.fact_order_Program_recoverFromP
 theorem calls : Tea.Gen.fact_calls = Tea.Doc.fact_calls := rfl
 theorem body_Program_initInput : Tea.Gen.fact_body_Program_initInput = Tea.Doc.fact_body_Program_initInput := rfl
 theorem body_Program_restoreInput : Tea.Gen.fact_body_Program_restoreInput = Tea.Doc.fact_body_Program_restoreInput := rfl
+theorem body_WithAltScreen : Tea.Gen.fact_body_WithAltScreen = Tea.Doc.fact_body_WithAltScreen := rfl
+theorem body_WithoutBracketedPaste : Tea.Gen.fact_body_WithoutBracketedPaste = Tea.Doc.fact_body_WithoutBracketedPaste := rfl
+theorem body_WithMouseCellMotion : Tea.Gen.fact_body_WithMouseCellMotion = Tea.Doc.fact_body_WithMouseCellMotion := rfl
+theorem body_WithMouseAllMotion : Tea.Gen.fact_body_WithMouseAllMotion = Tea.Doc.fact_body_WithMouseAllMotion := rfl
+theorem body_WithReportFocus : Tea.Gen.fact_body_WithReportFocus = Tea.Doc.fact_body_WithReportFocus := rfl
+theorem body_startupOptions_has : Tea.Gen.fact_body_startupOptions_has = Tea.Doc.fact_body_startupOptions_has := rfl
+theorem body_standardRenderer_altScreen : Tea.Gen.fact_body_standardRenderer_altScreen = Tea.Doc.fact_body_standardRenderer_altScreen := rfl
+theorem body_standardRenderer_bracketedPasteActive : Tea.Gen.fact_body_standardRenderer_bracketedPasteActive = Tea.Doc.fact_body_standardRenderer_bracketedPasteActive := rfl
+theorem body_standardRenderer_reportFocus : Tea.Gen.fact_body_standardRenderer_reportFocus = Tea.Doc.fact_body_standardRenderer_reportFocus := rfl
+theorem body_Program_handlePanic : Tea.Gen.fact_body_Program_handlePanic = Tea.Doc.fact_body_Program_handlePanic := rfl
+theorem body_openInputTTY : Tea.Gen.fact_body_openInputTTY = Tea.Doc.fact_body_openInputTTY := rfl
+theorem body_NewProgram : Tea.Gen.fact_body_NewProgram = Tea.Doc.fact_body_NewProgram := rfl
+theorem body_WithInputTTY : Tea.Gen.fact_body_WithInputTTY = Tea.Doc.fact_body_WithInputTTY := rfl
+theorem body_WithInput : Tea.Gen.fact_body_WithInput = Tea.Doc.fact_body_WithInput := rfl
+theorem body_WithOutput : Tea.Gen.fact_body_WithOutput = Tea.Doc.fact_body_WithOutput := rfl
+theorem body_standardRenderer_execute : Tea.Gen.fact_body_standardRenderer_execute = Tea.Doc.fact_body_standardRenderer_execute := rfl
 
 end Tea.Props.Bridge.C05
